@@ -302,7 +302,7 @@ def selftest(ctx, good, hdr, ndig):
     bad = validate(ctx, [base] + muts, hdr, "selftest")
     ctx.cov.update(saved)
     wrong = [n for i, (n, _f, c) in enumerate(cases) if bad.get(900001 + i) != c]
-    ctx.cov["binding_selftest"] = dict(corrupted_runs=len(cases), rejected=len(cases) - len(wrong), fields=[n for n, _f, _c in cases])
+    ctx.cov.setdefault("binding_selftest", {})["Trace_C14"] = dict(corrupted_runs=len(cases), rejected=len(cases) - len(wrong), fields=[n for n, _f, _c in cases])
     if wrong or base[0]["tid"] in bad:
         raise common.MachineryError(f"binding self-test: Trace_C14 verdicts {bad} for corruptions {[n for n, _f, _c in cases]}")
 
